@@ -18,6 +18,9 @@ use self::windows::ExecutableMemory;
 pub const INITIAL_MEMORY_SIZE: usize = 0x800000;
 pub const MEMORY_MINIMUM_SIZE: usize = 0x1000;
 pub const MEMORY_SIZE_INCREASE: usize = 0x1000;
+/// Upper bound for the host code emitted for one guest instruction plus the
+/// block epilogue
+pub const MAX_TRANSLATED_OP_SIZE: usize = 0x200;
 
 pub struct CodeCache {
   exec_memory: ExecutableMemory,
@@ -26,6 +29,7 @@ pub struct CodeCache {
 
   prologue_location: usize,
   epilogue_location: usize,
+  first_block_location: usize,
 }
 
 impl CodeCache {
@@ -37,9 +41,11 @@ impl CodeCache {
 
       prologue_location: 0,
       epilogue_location: 0,
+      first_block_location: 0,
     };
     cache.write_prelude_block();
     cache.write_epilogue_block();
+    cache.first_block_location = cache.write_cursor;
 
     cache
   }
@@ -102,7 +108,25 @@ impl CodeCache {
     }
   }
 
+  /// Forget every translation and fill the arena from the start again. The
+  /// shared prologue and epilogue stay where they are.
+  fn reset(&mut self) {
+    self.code_blocks.clear();
+    self.write_cursor = self.first_block_location;
+  }
+
   pub fn translate_code_block(&mut self, code: &Box<[u8]>, ip: usize, mem: *const MemoryAreas) -> usize {
+    if let Some(offset) = self.try_translate_code_block(code, ip, mem) {
+      return offset;
+    }
+    // The arena is full. Nothing is evicted selectively: drop all blocks
+    // and translate this one again into the empty arena.
+    self.reset();
+    self.try_translate_code_block(code, ip, mem)
+      .expect("Code block does not fit in the translation arena")
+  }
+
+  fn try_translate_code_block(&mut self, code: &Box<[u8]>, ip: usize, mem: *const MemoryAreas) -> Option<usize> {
     let mut write_cursor = self.write_cursor;
     let starting_offset = write_cursor;
 
@@ -120,6 +144,10 @@ impl CodeCache {
       let code_slice = self.get_executable_memory_segment(index, mem);
       if code_slice.len() < 1 {
         break;
+      }
+      if available_length - write_cursor < MAX_TRANSLATED_OP_SIZE {
+        self.exec_memory.make_executable();
+        return None;
       }
       let (next_op, length, _cycles) = decode(code_slice);
       index += length;
@@ -168,7 +196,7 @@ impl CodeCache {
       println!("Running out of space, only {} bytes left", space_remaining);
     }
 
-    starting_offset
+    Some(starting_offset)
   }
 
   fn insert_code_block(&mut self, ip: usize, offset: usize, length: usize, bytes_translated: usize) {
